@@ -25,6 +25,7 @@ RULE = (
     ' Also: naive datetimes, bases at the epoch / 10^9 s / 2^32 s, prefixes that begin with tmp or hold regex / format characters, channels recorded at the same time, and a differential run of the `drf ls --abs` command line (both time spellings, default and explicit flags) against lsdrf.'
 )
 RULE += ' Since rounds 7-8: window edges between milliseconds, names with non-ASCII digits, channel names that are prefixes of each other, the reversed twin judged in full, the listing repeated, warnings turned into errors.'
+RULE += ' Round 9: the directory named twice on the drf ls command line (relative output), grouping directories named like time stamps.'
 ASSUMPTIONS = ["files are empty placeholders (listing never opens them)",
                "for a legacy metadata.h5 channel, and when a subdirectory vanishes, the forward-fill file is accepted present or absent"]
 FLOORS = {"nontrivial": 0.5}
